@@ -213,7 +213,9 @@ fn classify_by_repair(judge: &Judge, out: &[u8]) -> Option<String> {
         both.push_str(ch);
         i += l;
     }
-    let valid = |t: &str| matches!(judge.judge_text(t.as_bytes()), Judgement::Valid);
+    // the repaired text is judged by the reference validator (the second validator may differ on other details of
+    // the same field, e.g. a "-00:00" offset, which would hide the pattern)
+    let valid = |t: &str| matches!(judge.judge_text(t.as_bytes()), Judgement::Valid) || judge.reference_says_valid(t.as_bytes());
     if n_leap > 0 && valid(&leap) {
         return Some("format_leap_second_at_arbitrary_time".into());
     }
